@@ -11,11 +11,13 @@
 (***************************************************************************************)
 EXTENDS Naturals, Sequences, TLC
 
-ResCodes  == {"err", "r0", "r1", "r7", "r8", "r9"}       \* request error, TdxAttestSuccess, Unexpected, NotSupported, QuoteFailure, Busy
+ResCodes  == {"err", "r0", "r1", "r7", "r8", "r9", "rWide", "rTop"}
+\*   request error, TdxAttestSuccess, Unexpected, NotSupported, QuoteFailure, Busy; rWide = 2^32 and rTop = 2^63: non-zero codes whose low 32 bits are zero
+ReqLens   == {"kept", "raised", "zeroed"}    \* what the device does to the Length field of the quote request it was handed (an in/out length idiom)
 Statuses  == {"s0", "inflight", "error", "unavailable", "other"}
 OutLens   == {"zero", "one", "exact", "buf", "bufPlus1", "max", "unwritten"}   \* 0, 1, len(quote), buffer size, buffer size + 1, 2^32 - 1; unwritten: the device leaves the field as the client sent it (0)
 Buffers   == {"quote", "untouched"}                       \* device wrote a quote / left the TD report in place
-Devices   == [rr : ResCodes, qr : ResCodes, st : Statuses, ol : OutLens, buf : Buffers]
+Devices   == [rr : ResCodes, qr : ResCodes, st : Statuses, ol : OutLens, buf : Buffers, len : ReqLens]
 Providers == {"bytes", "error", "both", "empty", "unsupportedNoDevice", "unsupportedFileDevice"}
 Vias      == {"device", "provider"}
 Priors    == {"none", "good", "provSupported", "provUnsupported"}
@@ -30,7 +32,7 @@ DeviceYieldsData(d) == d.rr = "r0" /\ d.qr = "r0" /\ d.st = "s0" /\ OutLenValid(
 VARIABLES via, dev, prov, prior, pc, ioctls, opened, result
 vars == <<via, dev, prov, prior, pc, ioctls, opened, result>>
 
-GoodDevice == [rr |-> "r0", qr |-> "r0", st |-> "s0", ol |-> "exact", buf |-> "quote"]
+GoodDevice == [rr |-> "r0", qr |-> "r0", st |-> "s0", ol |-> "exact", buf |-> "quote", len |-> "kept"]
 
 Init == /\ via \in Vias
         /\ dev \in Devices
